@@ -112,14 +112,11 @@ public:
       }
       break;
     case OP_SDIV:
-      if (k != 0) {
-        dom.apply(OP_MULTIPLICATION, y, x, k);
-        if (!(x == y)) {
-          dom -= x;
-        }
-      } else {
-        dom -= x;
-      }
+      // Integer division is not invertible: x = y / k holds for every
+      // y in [x*k, x*k + |k| - 1] (or the symmetric range), not only
+      // for y = x * k. We lose all the information about x (and y if
+      // x and y are the same variable).
+      dom -= x;
       break;    
     default:
       //case OP_UDIV:
